@@ -28,6 +28,24 @@ def _normalize(value: str) -> str:
     return re.sub(r"[-\s]+", "-", value).strip("-")
 
 
+# Git exports these variables to the hooks it runs. They bind every Git command to the repository,
+# working tree and index of the hook's caller, whatever `-C` says: a worktree created with them set
+# would be checked out into the caller's own index.
+_GIT_LOCAL_ENV_VARS = (
+    "GIT_DIR",
+    "GIT_WORK_TREE",
+    "GIT_INDEX_FILE",
+    "GIT_OBJECT_DIRECTORY",
+    "GIT_ALTERNATE_OBJECT_DIRECTORIES",
+    "GIT_COMMON_DIR",
+    "GIT_PREFIX",
+)
+
+
+def _git_env() -> dict[str, str]:
+    return {name: value for name, value in os.environ.items() if name not in _GIT_LOCAL_ENV_VARS}
+
+
 def assert_git_repo(path: str | Path) -> None:
     """Assert that a directory is a Git repository.
 
@@ -124,6 +142,7 @@ def tmp_worktree(repo: str | Path = ".", ref: str = "HEAD") -> Iterator[Path]:
                 ["git", "-C", repo, "worktree", "add", "-b", tmp_branch, location, ref],
                 capture_output=True,
                 check=False,
+                env=_git_env(),
             )
             if process.returncode:
                 raise RuntimeError(f"Could not create git worktree: {process.stderr.decode()}")
@@ -139,6 +158,17 @@ def tmp_worktree(repo: str | Path = ".", ref: str = "HEAD") -> Iterator[Path]:
                     ["git", "-C", repo, "worktree", "remove", "--force", "--force", location],
                     stdout=subprocess.DEVNULL,
                     check=False,
+                    env=_git_env(),
                 )
-                subprocess.run(["git", "-C", repo, "worktree", "prune"], stdout=subprocess.DEVNULL, check=False)
-                subprocess.run(["git", "-C", repo, "branch", "-D", tmp_branch], stdout=subprocess.DEVNULL, check=False)
+                subprocess.run(
+                    ["git", "-C", repo, "worktree", "prune"],
+                    stdout=subprocess.DEVNULL,
+                    check=False,
+                    env=_git_env(),
+                )
+                subprocess.run(
+                    ["git", "-C", repo, "branch", "-D", tmp_branch],
+                    stdout=subprocess.DEVNULL,
+                    check=False,
+                    env=_git_env(),
+                )
